@@ -71,6 +71,9 @@ func (g *Gen) step(fn *ssa.Function, st *State, in ssa.Instruction) {
 	case *ssa.Store:
 		v := g.val(st, x.Val)
 		p := g.val(st, x.Addr)
+		if p.Kind == "heapfield" || p.Kind == "globptr" || (p.Kind == "elemptr" && p.Elem.Ref != "") {
+			g.markEscape(st, v)
+		}
 		switch {
 		case p.Kind == "elemptr" && p.Elem.Ref != "":
 			g.frameElemStore(st, p.Elem.Ref, x.Pos())
@@ -795,11 +798,8 @@ func (g *Gen) concat(st *State, a, b Val) Val {
 		return Val{T: g.def("cat", "(Array Int Int)", arr), Len: g.def("len", "Int", fmt.Sprintf("(+ %s %d)", a.Len, k)), Off: a.Off, Kind: "str"}
 	}
 	// general concatenation: fresh array characterised pointwise
-	arr := g.newSym("cat", "(Array Int Int)")
 	l := g.def("len", "Int", fmt.Sprintf("(+ %s %s)", a.Len, b.Len))
-	q := "k!cat"
-	g.assume(st, fmt.Sprintf("(forall ((%s Int)) (and (=> (and (<= 0 %s) (< %s %s)) (= (select %s %s) (select %s (+ %s %s)))) (=> (and (<= 0 %s) (< %s %s)) (= (select %s (+ %s %s)) (select %s (+ %s %s))))))",
-		q, q, q, a.Len, arr, q, g.arr(st, a), a.Off, q, q, q, b.Len, arr, a.Len, q, g.arr(st, b), b.Off, q))
+	arr := g.seqJoin(st, "cat", g.arr(st, a), a.Off, a.Len, g.arr(st, b), b.Off, b.Len, "0")
 	return Val{T: arr, Len: l, Off: "0", Kind: "str"}
 }
 
